@@ -130,6 +130,32 @@ def in_sync(st, entry):
     return okc, oke
 
 
+def _plain_get_key(p):
+    """HashKey::get_key() — the overload without parameters"""
+    fs = [f for f in p.fns(HK + '::get_key') if f.body is not None and not f.params]
+    if len(fs) != 1:
+        raise AnalysisBroken('C04: HashKey::get_key() without parameters not found (or defined twice)')
+    return fs[0]
+
+
+def _position_hash(ctx, p):
+    """the key the rest of the engine sees (Position::hash(), used for the transposition table and printed by `hash`) is the
+    five-component key itself: no other accessor of the key object, nothing mixed in (a clock, a counter, the history)"""
+    from rules.cases import effects_under
+    hs = [f for f in p.fns(POS + '::hash') if f.body is not None]
+    if len(hs) != 1:
+        raise AnalysisBroken('C04: Position::hash() not found')
+    h = hs[0]
+    ctx.analysed(h)
+    got = effects_under(h, kids(h.body), {})
+    ctx.ob('C04.R6.position-hash', 'Position::hash', got == ['return _zobrist_hash.get_key()'],
+           'Position::hash() returns the five-component key and nothing else (%s)' % got, site=h.loc())
+    others = sorted({short(f.name) for f in p.funcs.values() if f.name.startswith(HK + '::get_') and f.body is not None and f.params})
+    ctx.ob('C04.R6.position-hash', 'HashKey accessors', not others,
+           'no accessor of the key takes something to mix into it%s' % ('' if not others else ' — ' + ', '.join(others)),
+           site='engine/zobrist_hash.cpp')
+
+
 def key_primitives(ctx, p):
     """R6: what each incremental update of the key does to the five components (effects per case, rules/cases.effects_under)"""
     from rules.cases import effects_under
@@ -195,7 +221,7 @@ def key_primitives(ctx, p):
         ctx.ob('C04.R6.key-primitive', 'move_piece:%s' % kind, got == {comp: ('^', sorted(['PIECE_HASH[piece][from]', 'PIECE_HASH[piece][to]']))},
                'moving a %s toggles its constants for the origin and the target in the %s component (%s)'
                % (kind.lower(), 'pawn' if comp == '_pawn_key' else 'piece', got), site=f.loc())
-    gk = p.fn(HK + '::get_key')
+    gk = _plain_get_key(p)
     ctx.analysed(gk)
     got = effects_under(gk, kids(gk.body), {})
     from rules.norm import Norm as _Nk
@@ -210,6 +236,7 @@ def key_primitives(ctx, p):
 def check(ctx):
     p = ctx.prog()
     key_primitives(ctx, p)
+    _position_hash(ctx, p)
     muts = {}
     for nm in ('do_move', 'undo_move', 'do_null_move', 'undo_null_move', 'set_enpassant_square'):
         muts[nm] = p.fn(POS + '::' + nm)
@@ -385,7 +412,7 @@ def check(ctx):
     ctx.ob('C04.R4.no-history-reads', 'HashKey', not bad,
            'no HashKey method reads ply/half-move counters or the history (only colour, piece lists, rights, e.p. square)',
            site=bad[0][0].loc(bad[0][1]) if bad else 'engine/zobrist_hash.cpp')
-    gk = p.fn(HK + '::get_key')
+    gk = _plain_get_key(p)
     comps = sorted(short(n['ref']['n']) for n in gk.all_nodes() if n.get('ref', {}).get('k') == 'Field')
     xors = [n for n in gk.all_nodes() if n['k'] == 'BinaryOperator']
     ctx.ob('C04.R4.key-is-xor-of-five', 'get_key',
